@@ -12,7 +12,7 @@ import random
 from . import common
 from .common import codes, sx, uncodes
 
-TOKENS = ["a", "b", "1", "2", "(", ")", "[", "]", "...", "->", ",", "+", " ", "|"]
+TOKENS = ["a", "b", "1", "0", "(", ")", "[", "]", "...", "->", ",", "+", " ", "|"]
 
 
 # ------------------------------------------------------------------ canonical trees
